@@ -1,9 +1,12 @@
 """Engine B ("py2smt"): translate a loop-bounded integer Python function, from its current source,
 into z3 bit-vector terms with ITE merging of branches.
 
-Subset: positional int/bool parameters; Assign, AugAssign, If/elif/else, For over range(expr),
-Return, docstrings; + - & | >> << not and or, comparisons, x.bit_length(), len(param), names, constants.
+Subset: positional int/bool parameters; Assign, AugAssign, If/elif/else, For over range(expr), While (unrolled),
+Return, docstrings; + - * & | ^ ~ >> << unary minus, not and or, conditional expressions, comparisons, x.bit_length(),
+x.bit_count(), abs/min/max/int/bool, len(param), names, constants.
 Anything else raises Unsupported (the function is then reported as not encodable).
+Python ints are unbounded; the encoding uses `width` bits (two's complement).  Every +, -, *, <<, unary minus records the condition
+under which its result would not fit (`Translator.overflow`); the caller must show that condition unsatisfiable (else: inconclusive).
 """
 import ast
 import inspect
@@ -26,6 +29,7 @@ class Translator:
         self.W = width
         self.unroll = unroll
         self.params = [a.arg for a in self.fdef.args.args]
+        self.overflow = []      # z3 Bool terms: "this intermediate result does not fit in `width` bits"
 
     # -- value helpers
     def as_bool(self, v):
@@ -48,10 +52,17 @@ class Translator:
 
     def bit_length(self, x):
         x = self.as_bv(x)
+        x = z3.If(x < 0, -x, x)      # int.bit_length() is that of the absolute value
         r = z3.BitVecVal(0, self.W)
         for i in range(self.W):
             r = z3.If(z3.Extract(i, i, x) == 1, z3.BitVecVal(i + 1, self.W), r)
         return r
+
+    def bit_count(self, x):
+        """int.bit_count(): number of ones in the binary representation of abs(x)."""
+        x = self.as_bv(x)
+        x = z3.If(x < 0, -x, x)
+        return z3.Sum([z3.ZeroExt(self.W - 1, z3.Extract(i, i, x)) for i in range(self.W)])
 
     # -- execution
     def run(self, args, lens=None):
@@ -135,6 +146,21 @@ class Translator:
                     self.block(s.body, st, g)
                     st["env"] = self.merge(g, st["env"], env0)
                 st["unwind_exceeded"] = z3.Or(st["unwind_exceeded"], z3.And(live, nb > z3.BitVecVal(self.unroll, self.W)))
+        elif isinstance(s, ast.While):
+            if s.orelse:
+                raise Unsupported("while/else")
+            g_live = live
+            for _i in range(self.unroll):
+                c = self.as_bool(self.expr(s.test, st))
+                g = z3.And(g_live, c, z3.Not(st["ret"]))
+                env0 = dict(st["env"])
+                self.block(s.body, st, g)
+                st["env"] = self.merge(g, st["env"], env0)
+                g_live = g
+            c = self.as_bool(self.expr(s.test, st))
+            st["unwind_exceeded"] = z3.Or(st["unwind_exceeded"], z3.And(g_live, c, z3.Not(st["ret"])))
+        elif isinstance(s, ast.Pass):
+            return
         else:
             raise Unsupported(ast.dump(s)[:80])
 
@@ -145,7 +171,7 @@ class Translator:
 
     def binop(self, op, a, b):
         pyops = {ast.Add: operator.add, ast.Sub: operator.sub, ast.BitAnd: operator.and_, ast.BitOr: operator.or_,
-                 ast.RShift: operator.rshift, ast.LShift: operator.lshift}
+                 ast.RShift: operator.rshift, ast.LShift: operator.lshift, ast.BitXor: operator.xor, ast.Mult: operator.mul}
         if type(op) not in pyops:
             raise Unsupported(type(op).__name__)
         if isinstance(a, int) and isinstance(b, int):
@@ -153,7 +179,16 @@ class Translator:
         a, b = self.as_bv(a), self.as_bv(b)
         if isinstance(op, ast.RShift):
             return a >> b    # arithmetic shift = Python semantics for negative ints too
-        return pyops[type(op)](a, b)
+        r = pyops[type(op)](a, b)
+        if isinstance(op, ast.Add):
+            self.overflow.append(z3.Not(z3.And(z3.BVAddNoOverflow(a, b, True), z3.BVAddNoUnderflow(a, b))))
+        elif isinstance(op, ast.Sub):
+            self.overflow.append(z3.Not(z3.And(z3.BVSubNoOverflow(a, b), z3.BVSubNoUnderflow(a, b, True))))
+        elif isinstance(op, ast.Mult):
+            self.overflow.append(z3.Not(z3.And(z3.BVMulNoOverflow(a, b, True), z3.BVMulNoUnderflow(a, b))))
+        elif isinstance(op, ast.LShift):
+            self.overflow.append(z3.Or(b < 0, z3.UGE(b, z3.BitVecVal(self.W, self.W)), (r >> b) != a))
+        return r
 
     def expr(self, e, st):
         env = st["env"]
@@ -172,8 +207,24 @@ class Translator:
             if isinstance(e.op, ast.Not):
                 return (not v) if isinstance(v, (int, bool)) else z3.Not(self.as_bool(v))
             if isinstance(e.op, ast.USub):
-                return -v if isinstance(v, int) else -self.as_bv(v)
+                if isinstance(v, int):
+                    return -v
+                v = self.as_bv(v)
+                self.overflow.append(z3.Not(z3.BVSNegNoOverflow(v)))
+                return -v
+            if isinstance(e.op, ast.Invert):
+                return ~int(v) if isinstance(v, int) else ~self.as_bv(v)     # ~x = -x - 1 in two's complement, as in Python
+            if isinstance(e.op, ast.UAdd):
+                return v
             raise Unsupported(type(e.op).__name__)
+        if isinstance(e, ast.IfExp):
+            c = self.expr(e.test, st)
+            a, b = self.expr(e.body, st), self.expr(e.orelse, st)
+            if isinstance(c, (int, bool)):
+                return a if c else b
+            if (z3.is_bool(a) or isinstance(a, bool)) and (z3.is_bool(b) or isinstance(b, bool)):
+                return z3.If(self.as_bool(c), self.as_bool(a), self.as_bool(b))
+            return z3.If(self.as_bool(c), self.as_bv(a), self.as_bv(b))
         if isinstance(e, ast.BoolOp):
             vs = [self.as_bool(self.expr(v, st)) for v in e.values]
             return z3.And(*vs) if isinstance(e.op, ast.And) else z3.Or(*vs)
@@ -192,7 +243,29 @@ class Translator:
             return ops[type(e.ops[0])](a, b)   # signed comparisons
         if isinstance(e, ast.Call):
             if isinstance(e.func, ast.Attribute) and e.func.attr == "bit_length" and not e.args:
-                return self.bit_length(self.expr(e.func.value, st))
+                v = self.expr(e.func.value, st)
+                return int(v).bit_length() if isinstance(v, int) else self.bit_length(v)
+            if isinstance(e.func, ast.Attribute) and e.func.attr == "bit_count" and not e.args:
+                v = self.expr(e.func.value, st)
+                return int(v).bit_count() if isinstance(v, int) else self.bit_count(v)
+            if isinstance(e.func, ast.Name) and e.func.id in ("abs", "int", "bool", "min", "max") and e.args and not e.keywords:
+                vs = [self.expr(a, st) for a in e.args]
+                if e.func.id == "int" and len(vs) == 1:
+                    return vs[0] if isinstance(vs[0], int) and not isinstance(vs[0], bool) else self.as_bv(vs[0])
+                if e.func.id == "bool" and len(vs) == 1:
+                    return bool(vs[0]) if isinstance(vs[0], (int, bool)) else self.as_bool(vs[0])
+                if e.func.id == "abs" and len(vs) == 1:
+                    if isinstance(vs[0], int):
+                        return abs(vs[0])
+                    v = self.as_bv(vs[0])
+                    self.overflow.append(z3.Not(z3.BVSNegNoOverflow(v)))
+                    return z3.If(v < 0, -v, v)
+                if e.func.id in ("min", "max") and len(vs) >= 2:
+                    r = self.as_bv(vs[0])
+                    for b in vs[1:]:
+                        b = self.as_bv(b)
+                        r = z3.If(b < r, b, r) if e.func.id == "min" else z3.If(b > r, b, r)   # left-biased like the builtins
+                    return r
             if isinstance(e.func, ast.Name) and e.func.id == "len" and len(e.args) == 1 and isinstance(e.args[0], ast.Name):
                 if e.args[0].id in st["lens"]:
                     return st["lens"][e.args[0].id]
